@@ -131,6 +131,10 @@ fn dispatch(ctx: &Ctx) -> Outcome {
         let n = out.report.get("thread_exit_probes_ok");
         out.floors.push(util::floor("the group's small workload run from a thread-local destructor while a thread exits, in both orders of first use, equal to the same calls on an ordinary thread", n == 2, n));
     }
+    if ["C01", "C03", "C04", "C05", "C06", "C07", "C12", "C13", "C14", "C15"].contains(&ctx.prop.as_str()) && out.report.violations.is_empty() {
+        let n = out.report.get("migration_probes_ok");
+        out.floors.push(util::floor("objects built on one thread, used on a second and a third, read on a fourth: same results as on one thread", n == 1, n));
+    }
     out
 }
 
